@@ -185,6 +185,30 @@ def checkBlockHeaderContext (p : Params) (chain : List Hdr) (h : Hdr) (fastAdd :
         then .timeWarp
       else .ok
 
+inductive Verdict | ok | badTarget | badDifficulty | timeTooOld | timeWarp | assert | panic
+  deriving DecidableEq, Repr
+
+/-- `maybeAcceptBlockHeader` for a header whose hash meets its own target and whose time stamp is not in
+    the future: target range (sanity), then the context clauses. -/
+def headerVerdict (p : Params) (chain : List Hdr) (h : Hdr) : Verdict :=
+  if compactToBig h.bits ≤ 0 ∨ compactToBig h.bits > p.powLimit then .badTarget else
+  match checkBlockHeaderContext p chain h false with
+  | .ok => .ok
+  | .badDifficulty => .badDifficulty
+  | .timeTooOld => .timeTooOld
+  | .timeWarp => .timeWarp
+  | .assert => .assert
+  | .panic => .panic
+
+/-- `ProcessBlockHeader` over a sequence of headers, each built on the current header tip (oldest first):
+    accepted headers extend the chain, rejected ones leave it unchanged. -/
+def processHeaders (p : Params) : List Hdr → List Hdr → List Hdr × List Verdict
+  | chain, [] => (chain, [])
+  | chain, h :: hs =>
+    let v := headerVerdict p chain h
+    let r := processHeaders p (if v = .ok then h :: chain else chain) hs
+    (r.1, v :: r.2)
+
 /-- the loop of `calcEasiestDifficulty`: `for durationVal > 0 && newTarget < powLimit` -/
 def easiestLoop (adj maxSpan powLimit : Int) : Nat → Int → Int → Int
   | 0, _, t => t
